@@ -151,6 +151,50 @@ fn segments(report: &Report, thorough: bool) {
     run_family(report, &parser, &name, total, &build, &nontriv, &skipped, "trim-block");
     report.family(FamilyStat { name, cases: total, nontrivial: nontriv.load(Ordering::Relaxed), skipped: skipped.load(Ordering::Relaxed), note: "if..endif with a text body, four delimiter sides independently trimmed".into() });
 
+
+    // whole blocks as the markup item: the outer sides of comment / raw / capture / if-false blocks trim
+    // their neighbours like any tag, and (for raw) the inner sides trim the body
+    let rad = [r2, r2, 2, 2, 2, 2, 5, c];
+    let total = product(&rad);
+    let name = "trim/around-and-inside-blocks".to_string();
+    let nontriv = AtomicU64::new(0);
+    let skipped = AtomicU64::new(0);
+    let build = |i: u64| -> Option<(String, String)> {
+        let d = decode(i, &rad);
+        let (wl, wr) = (&runs2[d[0] as usize], &runs2[d[1] as usize]);
+        let (ol, or_, cl, cr) = (d[2] == 1, d[3] == 1, d[4] == 1, d[5] == 1);
+        let core = CORES[d[7] as usize];
+        if spells_delim(core) || core.contains('{') || core.contains('%') {
+            return None;
+        }
+        let dash = |b: bool| if b { "-" } else { "" };
+        // body = ws + core + ws so that the inner sides have something to trim
+        let body = format!("{wr}{core}{wl}");
+        let (open, close, out): (&str, &str, String) = match d[6] {
+            0 => ("comment", "endcomment", String::new()),
+            1 => ("raw", "endraw", {
+                let mut e: &str = &body;
+                if or_ { e = trim_start_ws(e); }
+                if cl { e = trim_end_ws(e); }
+                e.to_string()
+            }),
+            2 => ("capture cc", "endcapture", String::new()),
+            3 => ("if false", "endif", String::new()),
+            _ => ("unless false", "endunless", {
+                let mut e: &str = &body;
+                if or_ { e = trim_start_ws(e); }
+                if cl { e = trim_end_ws(e); }
+                e.to_string()
+            }),
+        };
+        let text = format!("x{wl}{{%{} {open} {}%}}{body}{{%{} {close} {}%}}{wr}y", dash(ol), dash(or_), dash(cl), dash(cr));
+        let e0 = if ol { "x".to_string() } else { format!("x{wl}") };
+        let e2 = if cr { "y".to_string() } else { format!("{wr}y") };
+        Some((text, format!("{e0}{out}{e2}")))
+    };
+    run_family(report, &parser, &name, total, &build, &nontriv, &skipped, "trim-blocks");
+    report.family(FamilyStat { name, cases: total, nontrivial: nontriv.load(Ordering::Relaxed), skipped: skipped.load(Ordering::Relaxed), note: "comment / raw / capture / if false / unless false as the markup item: four delimiter sides independently trimmed, whitespace runs outside and inside".into() });
+
     // two markups: T0 M1 T1 M2 T2 (adjacent markup with shared whitespace)
     let rad = [r2, 2, 2, 2, 2, 2, 2, 3];
     let total = product(&rad);
